@@ -93,4 +93,21 @@ if engine == "fs":
             open(p, "w").write(src)
         rep[os.path.join(repo, rel)] = p
 
+if engine == "seq":
+    # Yield points before every acquisition of poolMu (the lock that orders
+    # submissions against pool rotation): the simulator decides who gets the
+    # lock first. Inserted into a build-time copy of the CURRENT ctlog.go, so a
+    # changed tree is rewritten the same way; when the shape is not recognised
+    # nothing is inserted and the build goes on without yields.
+    gen = os.path.join(bdir, "seqgen")
+    os.makedirs(gen, exist_ok=True)
+    rel = "internal/ctlog/ctlog.go"
+    src = open(os.path.join(repo, rel)).read()
+    new, n = re.subn(r'^([ \t]*)(\w+)\.poolMu\.Lock\(\)[ \t]*$', r'\1verifYield(&\2.poolMu)\n\1\2.poolMu.Lock()', src, flags=re.M)
+    if n > 0:
+        p = os.path.join(gen, "ctlog.go")
+        if not os.path.exists(p) or open(p).read() != new:
+            open(p, "w").write(new)
+        rep[os.path.join(repo, rel)] = p
+
 json.dump({"Replace": rep}, open(os.path.join(bdir, "overlay-%s.json" % engine), "w"), indent=1, sort_keys=True)
